@@ -18,12 +18,14 @@ def run(unit_names, verbose=True):
         elif name in reg.harnesses:
             ex.verify_harness(reg.harnesses[name])
         else:
-            mi, ci, fn = repo.find_function(name)
-            ex.verify_function(name, reg.contracts[name], mi, ci, fn)
+            from pyvc.contracts import split_unit
+            base = split_unit(name)[0]
+            mi, ci, fn = repo.find_function(base)
+            ex.verify_function(base, reg.contracts[base], mi, ci, fn)
         t1 = time.time()
         ok = 0
         for ob in ex.obligations:
-            r = solve.check(ob.hyps, ob.goal, extra=ex.global_facts)
+            r = solve.check(ob.hyps, ob.goal, extra=ex.global_facts, want_model=False)
             if r.status == "unsat":
                 ok += 1
             if verbose or r.status != "unsat":
